@@ -58,6 +58,10 @@ var intLeaves = []Expr{
 	&Elem{Cont: "M64", KeyStr: ss("a")}, &Elem{Cont: "M64", KeyStr: ss("missing")}, &Elem{Cont: "PS", KeyInt: is(1)}, &Elem{Cont: "VS", KeyInt: is(0)},
 	&Elem{Cont: "MIK", KeyInt: is(1)}, &Elem{Cont: "MIK", KeyInt: is(-7)}, &Elem{Cont: "H.SL", KeyInt: is(0)}, &Elem{Cont: "H.MS", KeyStr: ss("b")},
 	&Elem{Cont: "PA", KeyInt: is(4)}, &Elem{Cont: "PM", KeyStr: ss("a")}, &Elem{Cont: "VA", KeyInt: is(0)}, &Elem{Cont: "MKU", KeyInt: is(9)},
+	// missing keys in every key form, on value- and pointer-injected maps
+	&Elem{Cont: "PM", KeyStr: ss("absent")}, &Elem{Cont: "PMI", KeyInt: is(1)}, &Elem{Cont: "PMI", KeyInt: is(404)}, &Elem{Cont: "PMI", KeyVar: "NI8"}, &Elem{Cont: "PMI", KeyVar: "NI64"},
+	&Elem{Cont: "MIK", KeyInt: is(4040)}, &Elem{Cont: "MIK", KeyVar: "NI16"}, &Elem{Cont: "M64", KeyVar: "NS"}, &Elem{Cont: "PM", KeyVar: "NS"}, &Elem{Cont: "H.MS", KeyVar: "NS"}, &Elem{Cont: "H.MS", KeyStr: ss("nope")},
+	&Elem{Cont: "PS", KeyVar: "ix1"}, &Elem{Cont: "H.SL", KeyVar: "ix1"},
 }
 var uintLeaves = []Expr{
 	&Ref{"NU"}, &Ref{"NU8"}, &Ref{"NU16"}, &Ref{"NU32"}, &Ref{"NU64"},
@@ -70,6 +74,7 @@ var floatLeaves = []Expr{
 }
 var strLeaves = []Expr{
 	&Ref{"NS"}, &Ref{"H.S"}, &Ref{"H.In.S"}, &Ref{"H.Pn.S"}, &Ref{"V.S"}, &Elem{Cont: "VSS", KeyInt: is(1)}, &Elem{Cont: "H.MI", KeyInt: is(1)}, &Elem{Cont: "H.MI", KeyInt: is(-5)}, &Elem{Cont: "H.MI", KeyInt: is(77)},
+	&Elem{Cont: "PMS", KeyStr: ss("a")}, &Elem{Cont: "PMS", KeyStr: ss("missing")}, &Elem{Cont: "PMS", KeyVar: "NS"}, &Elem{Cont: "H.MI", KeyVar: "NI8"},
 }
 var boolLeaves = []Expr{&Ref{"NB"}, &Ref{"H.B"}, &Ref{"H.In.B"}, &Ref{"H.Pn.B"}, &Ref{"V.B"}}
 
